@@ -208,11 +208,11 @@ func runC06(c *core.Ctx) {
 				}
 			}
 			var fc lorawan.FCtrl
-			if err := fc.UnmarshalBinary([]byte{b}); err != nil || fc.ADR != (b&0x80 != 0) || fc.ADRACKReq != (b&0x40 != 0) || fc.ACK != (b&0x20 != 0) || fc.FPending != (b&0x10 != 0) || fc.ClassB != (b&0x10 != 0) {
+			if err := fc.UnmarshalBinary([]byte{b}); err != nil || fc.ADR != (b&0x80 != 0) || fc.ADRACKReq != (b&0x40 != 0) || fc.ACK != (b&0x20 != 0) || (fc.FPending || fc.ClassB) != (b&0x10 != 0) { // without a direction either flag may carry bit 4
 				c.Violate("C06|fctrl|decode", "FCtrl %#02x -> %+v (%v)", b, fc, err)
 			}
 			// FCtrl through an FHDR with v&15 bytes of FOpts
-			fh := lorawan.FHDR{FCtrl: lorawan.FCtrl{ADR: b&0x80 != 0, ADRACKReq: b&0x40 != 0, ACK: b&0x20 != 0, FPending: b&0x10 != 0}}
+			fh := lorawan.FHDR{FCtrl: lorawan.FCtrl{ADR: b&0x80 != 0, ADRACKReq: b&0x40 != 0, ACK: b&0x20 != 0, FPending: b&0x10 != 0, ClassB: b&0x10 != 0}}
 			if n := int(b & 15); n > 0 {
 				fh.FOpts = []lorawan.Payload{&lorawan.DataPayload{Bytes: bytes.Repeat([]byte{0xaa}, n)}}
 			}
